@@ -131,7 +131,7 @@ def plus_stub(a, m):
     return mk
 
 
-LOOP_INV = ('__CPROVER_assigns(IT_FIELDS(in), g_turn, g_pos, g_done, g_iter, g_last, g_called[0], g_ok[0], g_len[0], g_ncalls[0], vf_exc, vf_exc_counter, g_exc_obj, g_exc_type)\n'
+LOOP_INV = ('__CPROVER_assigns(IT_FIELDS(in), g_turn, g_pos, g_done, g_iter, g_last, g_called[0], g_ok[0], g_len[0], g_ncalls[0], g_ae[0], g_re[0], g_lp[0], vf_exc, vf_exc_counter, g_exc_obj, g_exc_type)\n'
             '__CPROVER_loop_invariant(VALID_STUB(in) && EXC_OK && g_done == 0 && g_turn == 0 && OFF(CUR(in)) == g_pos'
             ' && IN_END(in) == __CPROVER_loop_entry(IN_END(in)) && IN_BEGIN(in) == __CPROVER_loop_entry(IN_BEGIN(in))'
             ' && OFF(CUR(in)) >= OFF(__CPROVER_loop_entry(CUR(in))) %s)')
@@ -139,6 +139,7 @@ LOOP_INV = ('__CPROVER_assigns(IT_FIELDS(in), g_turn, g_pos, g_done, g_iter, g_l
 
 def jobs(tier):
     out = []
+    TR = traits_of(NAME, {'%s%d' % (op, n): OPS[op](n) for op in OPS for n in sorted(set(SIZES[op]) | set(SIZES_THOROUGH.get(op, ())))})
     for op, n, a, m, tr in all_roots():
         if n not in SIZES[op] and tier != 'thorough':
             continue
@@ -150,15 +151,19 @@ def jobs(tier):
             con.add(c)
         for c in post:
             con.add(c)
+        tq = TR['%s%d' % (op, n)]
+        nsub = n if op in ('seq', 'sor') else 1
+        for c in c11_premises(tq, nsub):
+            con.add(c)
         con.add(E('vf_canary', 'canary_exit'))
         stub = plus_stub(a, m) if op == 'plus' else rule_stub(spec)
         loops = {}
         if op == 'star':
-            loops = {(r'internal::star_partial<.*>::match<', 1): LOOP_INV % ''}
+            loops = {(r'internal::star_partial<.*>::match<', 1): LOOP_INV % c11_loop_inv(tq, 1)}
         if op == 'plus':
-            loops = {(r'internal::plus<.*>::match<', 1): LOOP_INV % '&& g_iter >= 1'}
+            loops = {(r'internal::plus<.*>::match<', 1): LOOP_INV % ('&& g_iter >= 1' + c11_loop_inv(tq, 1))}
         j = Job(rname(op, n, a, m, tr), NAME, rname(op, n, a, m, tr), con,
-                ('C01', 'C02', 'C05'), stubs=[(r'^bool vf::R<\d+>::match<', stub)], loops=loops,
+                ('C01', 'C02', 'C05', 'C11'), stubs=[(r'^bool vf::R<\d+>::match<', stub)], loops=loops,
                 prelude=comb_prelude(tr),
                 harness=comb_harness('vf_' + INPUT_TYPES[(tr, 'lf_crlf')], tr, 'w_ret = $ENTRY(&in)'),
                 expect_fail_canary=('canary_exit',),
